@@ -103,10 +103,21 @@ where
     #[allow(clippy::needless_continue)]
     fn poll_next(self: Pin<&mut Self>, cx: &mut Context<'_>) -> Poll<Option<Self::Item>> {
         let fair_queue = self.get_mut();
+        // Only the events queued when this poll started are served by it. A
+        // stream may return `Pending` after waking itself (cooperative
+        // yielding, e.g. an exhausted tokio task budget); re-polling it in this
+        // loop would spin forever instead of returning to the executor.
+        let mut budget = fair_queue.inner.lock().ready_queue.len();
         loop {
             let (event, mut io_stream) = {
                 let mut inner = fair_queue.inner.lock();
                 inner.waker = Some(cx.waker().clone());
+                if budget == 0 && !inner.ready_queue.is_empty() {
+                    // More became ready meanwhile: ask to be polled again.
+                    cx.waker().wake_by_ref();
+                    return Poll::Pending;
+                }
+                budget = budget.saturating_sub(1);
                 let event = match inner.ready_queue.pop() {
                     Some(s) => s,
                     None => {
